@@ -131,7 +131,7 @@ Lemma ipvfuture_ok_inv h : ipvfuture_ok h = true ->
 Proof.
   destruct h as [|x r]; [discriminate|]. intro H.
   pose proof (ipvfuture_ok_head _ _ H); subst x. rewrite ipvfuture_ok_118 in H.
-  destruct (span_until nothex r) as [[|a0 a] [|d [|y t]]]; try discriminate.
+  destruct (span_until nothex r) as [[|a0 a] [|d [|y t]]] eqn:Es; try discriminate.
   - destruct d as [|p]; [discriminate|].
     repeat (destruct p as [p|p|]; try discriminate).
   - assert (d = 46).
@@ -192,6 +192,479 @@ Proof.
         destruct (lower_ch_cases x) as [->|[Hu [-> _]]]; [assumption|].
         unfold ip6_char, is_hexdigit, is_digit, is_upper in *. lia. }
     rewrite Hp. auto.
+Qed.
+
+(* ---------- split_scheme ---------- *)
+Lemma split_scheme_In u s r : split_scheme u = (s, r) -> forall x, In x r -> In x u.
+Proof.
+  unfold split_scheme.
+  destruct (break_at ch_colon u) as [[[|c0 a] b]|] eqn:E;
+    try (intro H; inversion H; subst; auto; fail).
+  destruct (is_alpha c0 && forallb is_scheme_char (c0 :: a)); intro H; inversion H; subst; auto.
+  apply break_at_Some in E as [-> _]. intros x Hx. apply in_or_app. right. right. assumption.
+Qed.
+
+Lemma split_scheme_gemini r : split_scheme (lit "gemini:" ++ r) = (gemini_s, r).
+Proof.
+  unfold split_scheme. change (lit "gemini:" ++ r) with (lit "gemini" ++ ch_colon :: r).
+  rewrite break_at_app; [reflexivity|]. apply mem_false. reflexivity.
+Qed.
+
+(* ---------- urlsplit ---------- *)
+Definition cut (c : N) (s : str) : str * str :=
+  match break_at c s with Some (a, b) => (a, b) | None => (s, []) end.
+
+Lemma urlsplit_unfold ip6 u0 : urlsplit ip6 u0 =
+  let u := clean_url u0 in
+  let (scheme, u1) := split_scheme u in
+  let '(netloc, u2) :=
+    if prefixb [47; 47] u1 then span_until is_netloc_delim (drop 2 u1) else ([], u1) in
+  if negb (all_ascii netloc) then OutOfModel else
+  match check_brackets ip6 netloc with
+  | Some m => Err (lit "urlsplit") m
+  | None =>
+      let '(u3, frag) := cut ch_hash u2 in
+      let '(path, query) := cut ch_qm u3 in
+      Ok {| u_scheme := scheme; u_netloc := netloc; u_path := path; u_query := query; u_fragment := frag |}
+  end.
+Proof. reflexivity. Qed.
+
+Lemma cut_inv c s a b : cut c s = (a, b) ->
+  ~ In c a /\ (forall x, In x (a ++ b) -> In x s) /\
+  (a = [] \/ exists y t t', a = y :: t /\ s = y :: t') /\
+  ((s = a /\ b = []) \/ s = a ++ c :: b).
+Proof.
+  unfold cut. destruct (break_at c s) as [[x y]|] eqn:E; intro H; inversion H; subst.
+  - apply break_at_Some in E as [-> Hn]. split; [assumption|]. split.
+    + intros z Hz. apply in_app_or in Hz as [Hz|Hz]; apply in_or_app; [left|right; right]; assumption.
+    + split; [|right; reflexivity]. destruct a as [|y0 t]; [left; reflexivity|right]. exists y0, t, (t ++ c :: b). auto.
+  - apply break_at_None in E. split; [assumption|]. split.
+    + intros z Hz. rewrite app_nil_r in Hz. assumption.
+    + split; [|left; auto]. destruct a as [|y0 t]; [left; reflexivity|right]. exists y0, t, t. auto.
+Qed.
+
+Lemma url_tail_inv u2 u3 frag path query :
+  head_sat is_netloc_delim u2 ->
+  cut ch_hash u2 = (u3, frag) -> cut ch_qm u3 = (path, query) ->
+  (path = [] \/ exists t, path = ch_slash :: t) /\ ~ In ch_qm path /\ ~ In ch_hash path /\
+  ~ In ch_hash query /\ (forall x, In x (path ++ query) -> In x u2).
+Proof.
+  intros Hh H3 H4.
+  apply cut_inv in H3 as (Hn3 & Hi3 & Hd3 & _).
+  apply cut_inv in H4 as (Hn4 & Hi4 & Hd4 & _).
+  assert (Hsub : forall x, In x (path ++ query) -> In x u3) by assumption.
+  split; [|split; [assumption|split; [|split]]].
+  - destruct Hd4 as [->|(y & t & t' & -> & ->)]; [left; reflexivity|right].
+    destruct Hd3 as [Hd3|(y' & t1 & t1' & E1 & ->)]; [discriminate|]. inversion E1; subst y'.
+    destruct Hh as [Hh|(y' & t2 & E2 & Hy)]; [discriminate|]. inversion E2; subst y'.
+    exists t. f_equal.
+    assert (y <> ch_hash) by (intro; subst; apply Hn3; left; reflexivity).
+    assert (y <> ch_qm) by (intro; subst; apply Hn4; left; reflexivity).
+    unfold is_netloc_delim, ch_hash, ch_qm, ch_slash in *. lia.
+  - intro H. apply Hn3, Hsub, in_or_app. auto.
+  - intro H. apply Hn3, Hsub, in_or_app. auto.
+  - intros x Hx. apply Hi3, in_or_app. left. auto.
+Qed.
+
+Lemma urlsplit_inv ip6 u sp : urlsplit ip6 u = Ok sp -> u_netloc sp <> [] ->
+  all_ascii (u_netloc sp) = true /\ check_brackets ip6 (u_netloc sp) = None /\
+  (forall x, In x (u_netloc sp) -> is_netloc_delim x = false) /\
+  safe (u_netloc sp ++ u_path sp ++ u_query sp) /\
+  (u_path sp = [] \/ exists t, u_path sp = ch_slash :: t) /\
+  ~ In ch_qm (u_path sp) /\ ~ In ch_hash (u_path sp) /\ ~ In ch_hash (u_query sp).
+Proof.
+  rewrite urlsplit_unfold. cbv zeta.
+  destruct (split_scheme (clean_url u)) as [scheme u1] eqn:Es.
+  destruct (prefixb [47; 47] u1) eqn:Ep.
+  - destruct (span_until is_netloc_delim (drop 2 u1)) as [netloc u2] eqn:Esp.
+    destruct (negb (all_ascii netloc)) eqn:Ea; [discriminate|].
+    destruct (check_brackets ip6 netloc) eqn:Ec; [discriminate|].
+    destruct (cut ch_hash u2) as [u3 frag] eqn:E3.
+    destruct (cut ch_qm u3) as [path query] eqn:E4.
+    intros H _. inversion H; subst; cbn [u_netloc u_path u_query].
+    apply span_until_spec in Esp as (Hd & Hnd & Hhd).
+    destruct (url_tail_inv _ _ _ _ _ Hhd E3 E4) as (T1 & T2 & T3 & T4 & T5).
+    split; [apply negb_false_iff; assumption|]. split; [assumption|]. split; [assumption|].
+    split; [|tauto].
+    apply safe_incl with (b := clean_url u); [|apply clean_url_safe].
+    intros x Hx. apply (split_scheme_In _ _ _ Es). apply In_drop with (n := 2%nat). rewrite Hd.
+    apply in_app_or in Hx as [Hx|Hx]; apply in_or_app; auto.
+  - cbv iota beta.
+    destruct (negb (all_ascii [])) eqn:Ea; [discriminate|].
+    destruct (check_brackets ip6 []) eqn:Ec; [discriminate|].
+    destruct (cut ch_hash u1) as [u3 frag] eqn:E3.
+    destruct (cut ch_qm u3) as [path query] eqn:E4.
+    intros H Hn. inversion H; subst. cbn in Hn. congruence.
+Qed.
+
+Lemma urlsplit_build ip6 N P Q :
+  all_ascii N = true -> check_brackets ip6 N = None ->
+  (forall x, In x N -> is_netloc_delim x = false) ->
+  safe (N ++ P ++ Q) -> (exists t, P = ch_slash :: t) ->
+  ~ In ch_qm P -> ~ In ch_hash P -> ~ In ch_hash Q ->
+  urlsplit ip6 (lit "gemini:" ++ lit "//" ++ N ++ P ++ match Q with [] => [] | _ => ch_qm :: Q end) =
+  Ok {| u_scheme := gemini_s; u_netloc := N; u_path := P; u_query := Q; u_fragment := [] |}.
+Proof.
+  intros Ha Hc Hd Hs [t HP] Hq Hh1 Hh2.
+  set (qpart := match Q with [] => [] | _ => ch_qm :: Q end).
+  assert (Hsq : safe (N ++ P ++ qpart)).
+  { apply safe_app in Hs as [Hs1 Hs2]. apply safe_app in Hs2 as [Hs2 Hs3].
+    apply safe_app. split; [assumption|]. apply safe_app. split; [assumption|].
+    unfold qpart. destruct Q; [intros ? []|]. apply safe_cons. split; [reflexivity|assumption]. }
+  assert (Hcl : clean_url (lit "gemini:" ++ lit "//" ++ N ++ P ++ qpart) =
+                lit "gemini:" ++ lit "//" ++ N ++ P ++ qpart).
+  { unfold clean_url.
+    change (lstrip_by is_c0_or_space (lit "gemini:" ++ lit "//" ++ N ++ P ++ qpart))
+      with (lit "gemini:" ++ lit "//" ++ N ++ P ++ qpart).
+    apply remove_chars_id. rewrite app_assoc. apply safe_app. split; [|assumption].
+    intros x Hx. assert (Hf : forallb (fun c => negb (is_unsafe c)) (lit "gemini:" ++ lit "//") = true) by reflexivity.
+    rewrite forallb_forall in Hf. apply Hf in Hx. apply negb_true_iff. assumption. }
+  rewrite urlsplit_unfold. cbv zeta. rewrite Hcl, split_scheme_gemini.
+  change (prefixb [47; 47] (lit "//" ++ N ++ P ++ qpart)) with true. cbv iota.
+  change (drop 2 (lit "//" ++ N ++ P ++ qpart)) with (N ++ P ++ qpart).
+  rewrite span_until_app; [|assumption|right; subst P; exists ch_slash; eexists; split; [reflexivity|reflexivity]].
+  rewrite Ha. cbn [negb]. rewrite Hc.
+  assert (Hh3 : ~ In ch_hash (P ++ qpart)).
+  { apply notin_app; [assumption|]. unfold qpart. destruct Q; [intros []|].
+    apply notin_cons; [discriminate|assumption]. }
+  unfold cut at 1. rewrite (break_at_notin _ _ Hh3).
+  unfold cut, qpart. destruct Q as [|q Q'].
+  - rewrite app_nil_r. rewrite (break_at_notin _ _ Hq). reflexivity.
+  - rewrite break_at_app by assumption. reflexivity.
+Qed.
+
+(* ---------- check_brackets ---------- *)
+Lemma check_brackets_nobr ip6 N : ~ In ch_lbr N -> ~ In ch_rbr N -> check_brackets ip6 N = None.
+Proof.
+  intros H1 H2. unfold check_brackets.
+  rewrite (notin_mem_false _ _ H1), (notin_mem_false _ _ H2). reflexivity.
+Qed.
+
+Lemma check_brackets_br ip6 a h p : ~ In ch_lbr a -> ~ In ch_rbr h ->
+  check_brackets ip6 (a ++ ch_lbr :: h ++ ch_rbr :: p) = 
+  if mem ch_rbr a then
+    (if mem ch_lbr a then bracket_check ip6 h else bracket_check ip6 h)
+  else bracket_check ip6 h.
+Proof.
+  intros H1 H2. unfold check_brackets.
+  assert (HL : mem ch_lbr (a ++ ch_lbr :: h ++ ch_rbr :: p) = true).
+  { apply In_mem_true, in_or_app. right. left. reflexivity. }
+  assert (HR : mem ch_rbr (a ++ ch_lbr :: h ++ ch_rbr :: p) = true).
+  { apply In_mem_true, in_or_app. right. right. apply in_or_app. right. left. reflexivity. }
+  rewrite HL, HR. cbn [xorb]. cbv iota.
+  rewrite partition_found by assumption. rewrite partition_found by assumption.
+  destruct (mem ch_rbr a), (mem ch_lbr a); reflexivity.
+Qed.
+
+Lemma check_brackets_br' ip6 a h p : ~ In ch_lbr a -> ~ In ch_rbr h ->
+  check_brackets ip6 (a ++ ch_lbr :: h ++ ch_rbr :: p) = bracket_check ip6 h.
+Proof.
+  intros H1 H2. rewrite check_brackets_br by assumption.
+  destruct (mem ch_rbr a), (mem ch_lbr a); reflexivity.
+Qed.
+
+Lemma check_brackets_None_inv ip6 N : check_brackets ip6 N = None ->
+  (~ In ch_lbr N /\ ~ In ch_rbr N) \/
+  (exists a b h fr p, N = a ++ ch_lbr :: b /\ ~ In ch_lbr a /\
+                      partition ch_rbr b = (h, fr, p) /\ bracket_check ip6 h = None).
+Proof.
+  unfold check_brackets. destruct (mem ch_lbr N) eqn:EL, (mem ch_rbr N) eqn:ER; cbn [xorb]; cbv iota;
+    try discriminate.
+  - destruct (partition ch_lbr N) as [[a fr0] b] eqn:E1.
+    destruct (partition ch_rbr b) as [[h fr] p] eqn:E2.
+    intro H. right. exists a, b, h, fr, p.
+    apply partition_inv in E1 as [(_ & -> & Hn)|(_ & _ & _ & Hn)].
+    + auto.
+    + exfalso. apply Hn. apply mem_In. assumption.
+  - intros _. left. split; apply mem_false; assumption.
+Qed.
+
+(* ---------- hostinfo ---------- *)
+Definition hostinfo_hi (hi : str) : str * str :=
+  match partition ch_lbr hi with
+  | (_, true, bracketed) =>
+      let '(h, _, p) := partition ch_rbr bracketed in
+      let '(_, _, p') := partition ch_colon p in (h, p')
+  | (_, false, _) =>
+      let '(h, _, p) := partition ch_colon hi in (h, p)
+  end.
+
+Lemma hostinfo_eq N ui fr hi : rpartition ch_at N = (ui, fr, hi) -> hostinfo N = hostinfo_hi hi.
+Proof. intro H. unfold hostinfo. rewrite H. reflexivity. Qed.
+
+Lemma hostinfo_noat N : ~ In ch_at N -> hostinfo N = hostinfo_hi N.
+Proof. intro H. apply hostinfo_eq with (ui := []) (fr := false). apply rpartition_notin. assumption. Qed.
+
+Lemma hostinfo_hi_nobr hi : ~ In ch_lbr hi ->
+  hostinfo_hi hi = let '(h, _, p) := partition ch_colon hi in (h, p).
+Proof. intro H. unfold hostinfo_hi. rewrite partition_notin by assumption. reflexivity. Qed.
+
+Lemma hostinfo_hi_br a b : ~ In ch_lbr a ->
+  hostinfo_hi (a ++ ch_lbr :: b) =
+  let '(h, _, p) := partition ch_rbr b in let '(_, _, p') := partition ch_colon p in (h, p').
+Proof. intro H. unfold hostinfo_hi. rewrite partition_found by assumption. reflexivity. Qed.
+
+Lemma userinfo_noat N : ~ In ch_at N -> userinfo N = (None, None).
+Proof. intro H. unfold userinfo. rewrite rpartition_notin by assumption. reflexivity. Qed.
+
+Lemma userinfo_falsy N un pw : userinfo N = (un, pw) -> truthy un || truthy pw = false ->
+  exists pre ui fr hi, rpartition ch_at N = (ui, fr, hi) /\ N = pre ++ hi /\ ~ In ch_at hi /\
+                       (forall x, In x pre -> x = ch_at \/ x = ch_colon).
+Proof.
+  unfold userinfo. destruct (rpartition ch_at N) as [[ui fr] hi] eqn:E.
+  pose proof (rpartition_inv _ _ _ _ _ E) as [(-> & HN & Hh)|(-> & -> & -> & Hn)].
+  - destruct (partition ch_colon ui) as [[un0 f2] pw0] eqn:E2.
+    apply partition_inv in E2 as [(-> & Hu & _)|(-> & -> & -> & _)]; intros H Ht; inversion H; subst un pw.
+    + destruct un0; [|discriminate]. destruct pw0; [|discriminate].
+      exists ((ui ++ [ch_at])), ui, true, hi. split; [reflexivity|]. split.
+      * rewrite <- app_assoc. assumption.
+      * split; [assumption|]. subst ui. cbn. intuition.
+    + destruct ui; [|discriminate].
+      exists [ch_at], [], true, hi. split; [reflexivity|]. split; [assumption|]. split; [assumption|].
+      cbn. intuition.
+  - intros _ _. exists [], [], false, N. split; [reflexivity|]. split; [reflexivity|]. split; [assumption|].
+    intros x [].
+Qed.
+
+Lemma check_brackets_prefix ip6 pre hi :
+  ~ In ch_lbr pre -> ~ In ch_rbr pre -> check_brackets ip6 (pre ++ hi) = check_brackets ip6 hi.
+Proof.
+  intros H1 H2. unfold check_brackets. rewrite !mem_app.
+  rewrite (notin_mem_false _ _ H1), (notin_mem_false _ _ H2). cbn [orb].
+  destruct (mem ch_lbr hi) eqn:EL; [|reflexivity].
+  destruct (mem ch_rbr hi) eqn:ER; [|reflexivity]. cbn [xorb]. cbv iota.
+  unfold partition at 1 3. rewrite break_at_app_l by assumption.
+  destruct (break_at ch_lbr hi) as [[x y]|] eqn:E; [reflexivity|].
+  apply break_at_None in E. exfalso. apply E, mem_In. assumption.
+Qed.
+
+(* ---------- the host/port part: canonical re-rendering ---------- *)
+Lemma hostinfo_hi_renorm ip6 hi h0 p0 portpart :
+  oracle_ok ip6 -> ~ In ch_at hi -> check_brackets ip6 hi = None ->
+  hostinfo_hi hi = (h0, p0) -> h0 <> [] ->
+  (portpart = [] \/ exists n, portpart = ch_colon :: dec n) ->
+  let h := lower_host h0 in
+  let N' := (if mem ch_lbr hi then ch_lbr :: h ++ [ch_rbr] else h) ++ portpart in
+  check_brackets ip6 N' = None /\
+  hostinfo_hi N' = (h, match portpart with [] => [] | _ :: d => d end) /\
+  ~ In ch_at N' /\ mem ch_lbr N' = mem ch_lbr hi /\
+  (forall x, In x N' -> In x hi \/ is_lower x = true \/ is_digit x = true \/
+                         x = ch_lbr \/ x = ch_rbr \/ x = ch_colon).
+Proof.
+  intros Ho Hat Hcb Hhi Hne Hpp h N'.
+  assert (Hpp_at : ~ In ch_at portpart).
+  { destruct Hpp as [->|[n ->]]; [intros []|]. apply notin_cons; [discriminate|].
+    intro H. apply dec_digits in H. discriminate. }
+  assert (Hpp_lbr : ~ In ch_lbr portpart).
+  { destruct Hpp as [->|[n ->]]; [intros []|]. apply notin_cons; [discriminate|].
+    intro H. apply dec_digits in H. discriminate. }
+  assert (Hpp_rbr : ~ In ch_rbr portpart).
+  { destruct Hpp as [->|[n ->]]; [intros []|]. apply notin_cons; [discriminate|].
+    intro H. apply dec_digits in H. discriminate. }
+  assert (Hpp_cls : forall x, In x portpart -> is_digit x = true \/ x = ch_colon).
+  { destruct Hpp as [->|[n ->]]; [intros x []|]. intros x [Hx|Hx]; [right; auto|left].
+    apply dec_digits in Hx. assumption. }
+  apply check_brackets_None_inv in Hcb as [[HnL HnR]|(a & b & hh & fr & p & -> & HnL & Ep & Hbc)].
+  - (* no brackets *)
+    rewrite hostinfo_hi_nobr in Hhi by assumption.
+    destruct (partition ch_colon hi) as [[hh f] pp] eqn:E. inversion Hhi; subst hh pp.
+    assert (Hsub : forall x, In x h0 -> In x hi).
+    { apply partition_inv in E as [(_ & -> & _)|(_ & -> & _)]; [|auto].
+      intros x Hx. apply in_or_app. auto. }
+    assert (Hc0 : ~ In ch_colon h0).
+    { apply partition_inv in E as [(_ & _ & Hn)|(_ & -> & _ & Hn)]; assumption. }
+    assert (HhL : ~ In ch_lbr h) by (apply notin_lower_host; [reflexivity|auto]).
+    assert (HhR : ~ In ch_rbr h) by (apply notin_lower_host; [reflexivity|auto]).
+    assert (HhA : ~ In ch_at h) by (apply notin_lower_host; [reflexivity|auto]).
+    assert (HhC : ~ In ch_colon h) by (apply notin_lower_host; [reflexivity|auto]).
+    unfold N'. rewrite (notin_mem_false _ _ HnL).
+    split; [apply check_brackets_nobr; apply notin_app; assumption|].
+    split.
+    { rewrite hostinfo_hi_nobr by (apply notin_app; assumption).
+      destruct Hpp as [->|[n ->]].
+      - rewrite app_nil_r. rewrite partition_notin by assumption. reflexivity.
+      - rewrite partition_found by assumption. reflexivity. }
+    split; [apply notin_app; assumption|].
+    split; [apply notin_mem_false, notin_app; assumption|].
+    intros x Hx. apply in_app_or in Hx as [Hx|Hx].
+    + apply In_lower_host in Hx as [Hx|Hx]; auto.
+    + apply Hpp_cls in Hx as [Hx|Hx]; auto 10.
+  - (* bracketed *)
+    rewrite hostinfo_hi_br in Hhi by assumption. rewrite Ep in Hhi.
+    destruct (partition ch_colon p) as [[x1 x2] p'] eqn:E. inversion Hhi; subst hh p'.
+    assert (Hsub : forall x, In x h0 -> In x (a ++ ch_lbr :: b)).
+    { intros x Hx. apply in_or_app. right. right.
+      apply partition_inv in Ep as [(_ & -> & _)|(_ & -> & _)]; [|auto]. apply in_or_app. auto. }
+    assert (HR0 : ~ In ch_rbr h0).
+    { apply partition_inv in Ep as [(_ & _ & Hn)|(_ & -> & _ & Hn)]; assumption. }
+    assert (HhR : ~ In ch_rbr h) by (apply notin_lower_host; [reflexivity|auto]).
+    assert (HhA : ~ In ch_at h) by (apply notin_lower_host; [reflexivity|auto]).
+    assert (HL : mem ch_lbr (a ++ ch_lbr :: b) = true).
+    { apply In_mem_true, in_or_app. right. left. reflexivity. }
+    unfold N'. rewrite HL.
+    assert (EN : (ch_lbr :: h ++ [ch_rbr]) ++ portpart = [] ++ ch_lbr :: h ++ ch_rbr :: portpart).
+    { cbn [app]. rewrite <- app_assoc. reflexivity. }
+    rewrite EN.
+    split.
+    { rewrite check_brackets_br' by (auto; intros []). apply bracket_check_lower_host; assumption. }
+    split.
+    { rewrite hostinfo_hi_br by (intros []). rewrite partition_found by assumption.
+      destruct Hpp as [->|[n ->]].
+      - reflexivity.
+      - unfold partition. cbn [break_at]. rewrite N.eqb_refl. reflexivity. }
+    split.
+    { cbn [app]. apply notin_cons; [discriminate|]. apply notin_app; [assumption|].
+      apply notin_cons; [discriminate|assumption]. }
+    split; [reflexivity|].
+    cbn [app]. intros x [Hx|Hx]; [auto 10|].
+    apply in_app_or in Hx as [Hx|[Hx|Hx]]; [|auto 10|].
+    + apply In_lower_host in Hx as [Hx|Hx]; auto.
+    + apply Hpp_cls in Hx as [Hx|Hx]; auto 10.
+Qed.
+
+(* ---------- the netloc accessors on a re-rendered netloc ---------- *)
+Definition prt_of (po : option N) : N := match po with Some n => n | None => 1965 end.
+
+Definition renorm_netloc (nl : str) (h : str) (prt : N) : str :=
+  let host := if mem ch_lbr nl then ch_lbr :: h ++ [ch_rbr] else h in
+  if prt =? 1965 then host else host ++ ch_colon :: dec prt.
+
+Lemma port_bound N po : port N = Ok po -> prt_of po <= 65535.
+Proof.
+  unfold port. destruct (snd (hostinfo N)) as [|x p]; [intro H; inversion H; subst; cbn; lia|].
+  destruct (undec (x :: p)) as [n|]; [|discriminate].
+  destruct (n <=? 65535) eqn:E; [|discriminate]. intro H; inversion H; subst. cbn. lia.
+Qed.
+
+Lemma netloc_renorm ip6 N h un pw po :
+  oracle_ok ip6 -> check_brackets ip6 N = None -> hostname N = Some h ->
+  userinfo N = (un, pw) -> truthy un || truthy pw = false -> port N = Ok po ->
+  let prt := prt_of po in
+  let N' := renorm_netloc N h prt in
+  check_brackets ip6 N' = None /\ hostname N' = Some h /\ userinfo N' = (None, None) /\
+  port N' = Ok (if prt =? 1965 then None else Some prt) /\
+  mem ch_lbr N' = mem ch_lbr N /\
+  (forall x, In x N' -> In x N \/ is_lower x = true \/ is_digit x = true \/
+                        x = ch_lbr \/ x = ch_rbr \/ x = ch_colon) /\
+  prt <= 65535 /\ h <> [].
+Proof.
+  intros Ho Hcb Hh Hu Ht Hp prt N'.
+  pose proof (port_bound _ _ Hp) as Hb. fold prt in Hb.
+  destruct (userinfo_falsy _ _ _ Hu Ht) as (pre & ui & fr & hi & Er & EN & Hat & Hpre).
+  assert (HpL : ~ In ch_lbr pre) by (intro H; apply Hpre in H as [H|H]; discriminate).
+  assert (HpR : ~ In ch_rbr pre) by (intro H; apply Hpre in H as [H|H]; discriminate).
+  assert (EL : mem ch_lbr N = mem ch_lbr hi).
+  { rewrite EN, mem_app, (notin_mem_false _ _ HpL). reflexivity. }
+  assert (Hcb' : check_brackets ip6 hi = None).
+  { rewrite <- (check_brackets_prefix ip6 pre hi HpL HpR), <- EN. assumption. }
+  pose proof (hostinfo_eq _ _ _ _ Er) as Ehi.
+  destruct (hostinfo_hi hi) as [h0 p0] eqn:Ehh.
+  unfold hostname in Hh. rewrite Ehi in Hh. cbn [fst] in Hh.
+  assert (Hh0 : h0 <> [] /\ h = lower_host h0).
+  { destruct h0; [discriminate|]. inversion Hh. split; [discriminate|reflexivity]. }
+  destruct Hh0 as [Hne ->].
+  set (portpart := if prt =? 1965 then [] else ch_colon :: dec prt).
+  assert (EN' : N' = (if mem ch_lbr hi then ch_lbr :: lower_host h0 ++ [ch_rbr] else lower_host h0) ++ portpart).
+  { unfold N', renorm_netloc, portpart. rewrite EL. destruct (prt =? 1965); [rewrite app_nil_r|]; reflexivity. }
+  assert (Hpp : portpart = [] \/ exists n, portpart = ch_colon :: dec n).
+  { unfold portpart. destruct (prt =? 1965); [left; reflexivity|right; eexists; reflexivity]. }
+  destruct (hostinfo_hi_renorm ip6 hi h0 p0 portpart Ho Hat Hcb' Ehh Hne Hpp) as (C1 & C2 & C3 & C4 & C5).
+  rewrite <- EN' in *.
+  assert (Hne' : lower_host h0 <> []) by (apply lower_host_nonempty; assumption).
+  split; [assumption|]. split.
+  { unfold hostname. rewrite (hostinfo_noat _ C3), C2. cbn [fst].
+    destruct (lower_host h0) as [|y l] eqn:E; [congruence|]. rewrite <- E, lower_host_idem. reflexivity. }
+  split; [apply userinfo_noat; assumption|]. split.
+  { unfold port. rewrite (hostinfo_noat _ C3), C2. cbn [snd]. unfold portpart.
+    destruct (prt =? 1965); [reflexivity|].
+    destruct (dec prt) as [|d ds] eqn:Ed; [exfalso; revert Ed; apply dec_nonempty|].
+    rewrite <- Ed, undec_dec. apply N.leb_le in Hb. rewrite Hb. reflexivity. }
+  split; [congruence|]. split; [|split; assumption].
+  intros x Hx. apply C5 in Hx as [Hx|Hx]; [left|right; assumption].
+  rewrite EN. apply in_or_app. auto.
+Qed.
+
+(* ---------- parse_url, one step unfolded ---------- *)
+Definition parse_build (nl h : str) (po : option N) (P Q : str) : parsed :=
+  let prt := match po with Some n => n | None => 1965 end in
+  let path := match P with [] => [ch_slash] | x :: l => x :: l end in
+  let host := if mem ch_lbr nl then ch_lbr :: h ++ [ch_rbr] else h in
+  let netloc' := if prt =? 1965 then host else host ++ ch_colon :: dec prt in
+  {| p_host := h; p_port := prt; p_path := path; p_query := Q;
+     p_norm := urlunsplit_gemini netloc' path Q |}.
+
+Lemma parse_url_inv ip6 u c : parse_url ip6 u = Ok c ->
+  exists sp h un pw po,
+    urlsplit ip6 u = Ok sp /\ u_scheme sp = gemini_s /\ hostname (u_netloc sp) = Some h /\
+    userinfo (u_netloc sp) = (un, pw) /\ truthy un || truthy pw = false /\
+    u_fragment sp = [] /\ port (u_netloc sp) = Ok po /\
+    c = parse_build (u_netloc sp) h po (u_path sp) (u_query sp).
+Proof.
+  unfold parse_url. destruct u as [|u0 u']; [discriminate|].
+  destruct (urlsplit ip6 (u0 :: u')) as [sp| |] eqn:Es; cbn [bind]; try discriminate.
+  destruct (u_scheme sp) as [|s0 s'] eqn:Esch; [discriminate|].
+  destruct (negb (eqb (s0 :: s') gemini_s)) eqn:Eg; [discriminate|].
+  destruct (hostname (u_netloc sp)) as [h|] eqn:Eh; [|discriminate].
+  destruct (userinfo (u_netloc sp)) as [un pw] eqn:Eu.
+  destruct (truthy un || truthy pw) eqn:Et; [discriminate|].
+  destruct (u_fragment sp) eqn:Ef; [|discriminate].
+  destruct (port (u_netloc sp)) as [po| |] eqn:Ep; cbn [bind]; try discriminate.
+  intro H. inversion H. exists sp, h, un, pw, po.
+  apply negb_false_iff, eqb_spec in Eg.
+  subst c. repeat (split; [first [assumption|congruence|reflexivity]|]). reflexivity.
+Qed.
+
+Lemma parse_url_intro ip6 u sp h po :
+  u <> [] -> urlsplit ip6 u = Ok sp -> u_scheme sp = gemini_s -> hostname (u_netloc sp) = Some h ->
+  userinfo (u_netloc sp) = (None, None) -> u_fragment sp = [] -> port (u_netloc sp) = Ok po ->
+  parse_url ip6 u = Ok (parse_build (u_netloc sp) h po (u_path sp) (u_query sp)).
+Proof.
+  intros Hu Es Esch Eh Eu Ef Ep. unfold parse_url. destruct u as [|u0 u']; [congruence|].
+  rewrite Es. cbn [bind]. rewrite Esch. change gemini_s with (103 :: lit "emini") at 1.
+  cbv iota. change (103 :: lit "emini") with gemini_s. rewrite eqb_refl. cbn [negb].
+  rewrite Eh, Eu. cbn [truthy orb]. rewrite Ef, Ep. cbn [bind]. reflexivity.
+Qed.
+
+Lemma urlunsplit_gemini_slash nl t Q :
+  urlunsplit_gemini nl (ch_slash :: t) Q =
+  lit "gemini:" ++ lit "//" ++ nl ++ (ch_slash :: t) ++ match Q with [] => [] | _ => ch_qm :: Q end.
+Proof. reflexivity. Qed.
+
+(* ---------- the host text is a piece of the netloc ---------- *)
+Lemma partition_fst_incl c s a fr b : partition c s = (a, fr, b) -> forall x, In x a -> In x s.
+Proof.
+  intro H. apply partition_inv in H as [(_ & -> & _)|(_ & -> & _)]; [|auto].
+  intros x Hx. apply in_or_app. auto.
+Qed.
+Lemma partition_snd_incl c s a fr b : partition c s = (a, fr, b) -> forall x, In x b -> In x s.
+Proof.
+  intro H. apply partition_inv in H as [(_ & -> & _)|(_ & _ & -> & _)]; [|intros x []].
+  intros x Hx. apply in_or_app. right. right. assumption.
+Qed.
+
+Lemma hostinfo_fst_incl nl : forall x, In x (fst (hostinfo nl)) -> In x nl.
+Proof.
+  unfold hostinfo. destruct (rpartition ch_at nl) as [[ui fr] hi] eqn:Er.
+  assert (Hhi : forall x, In x hi -> In x nl).
+  { apply rpartition_inv in Er as [(_ & -> & _)|(_ & _ & -> & _)]; [|auto].
+    intros x Hx. apply in_or_app. right. right. assumption. }
+  destruct (partition ch_lbr hi) as [[a [|]] b] eqn:E1.
+  - destruct (partition ch_rbr b) as [[h f2] p] eqn:E2.
+    destruct (partition ch_colon p) as [[y1 y2] p'] eqn:E3. cbn [fst].
+    intros x Hx. apply Hhi. apply (partition_snd_incl _ _ _ _ _ E1).
+    apply (partition_fst_incl _ _ _ _ _ E2). assumption.
+  - destruct (partition ch_colon hi) as [[h f2] p] eqn:E2. cbn [fst].
+    intros x Hx. apply Hhi. apply (partition_fst_incl _ _ _ _ _ E2). assumption.
+Qed.
+
+Lemma hostname_Some_inv nl h : hostname nl = Some h ->
+  h <> [] /\ nl <> [] /\ forall x, In x h -> In x nl \/ is_lower x = true.
+Proof.
+  unfold hostname. pose proof (hostinfo_fst_incl nl) as Hi.
+  destruct (fst (hostinfo nl)) as [|y l] eqn:E; [discriminate|]. intro H. inversion H.
+  split; [apply lower_host_nonempty; discriminate|]. split.
+  - intro En. subst nl. apply (Hi y). left. reflexivity.
+  - intros x Hx. apply In_lower_host in Hx as [Hx|Hx]; auto.
 Qed.
 
 Close Scope N_scope.
